@@ -3,7 +3,6 @@ SPEC = dict(
     lean_project="HvPush", props_module="HvPush.Props.C12", driver="hvdrv_push",
     harness="hv_push", bin="hv_push", mode="c12",
     cases={"quick": 1500, "thorough": 30000},
-    refuted=["HvPush.resolveNonblocking_sendAfterDone_refuted"],
     level="proof",
     design_ref="DESIGN.md §5 C12",
     technique="Lean 4 simulation proofs over interaction-tree models of every push combinator (all downstream answer patterns, all caller histories) + differential correspondence with the real dfir_pipes::push code under the real SendPush/SendSink drivers",
@@ -16,23 +15,29 @@ SPEC = dict(
                 "filter_map, &mut P / Sink adapter, inspect, flat_map, flatten, fanout, unzip, demux_var (n ports), "
                 "Accumulate with fold/reduce/sort states, Sort, fold_keyed/reduce_keyed (any hash order), persist (+ buffer "
                 "content), filter_map_async, flat_map_stream/flatten_stream, state_push, for_each/vec_push, ResolveFutures in "
-                "blocking mode over a scripted queue. The standard driver SendPush::poll (= SendSink over SinkCompat) is proved "
+                "both modes (blocking: everything delivered; non-blocking = subgraph_waker: a part delivered, nothing twice, "
+                "nothing after the downstream's finalize was called — resolveFutures_nonblocking_sound, about the code after "
+                "the F124 fix — and resolveNonblocking_conservation: delivered ++ still queued = everything, at every point) over "
+                "a scripted queue. The standard driver SendPush::poll (= SendSink over SinkCompat) is proved "
                 "for every pull script and poll count to honour the contract, finalize only after the pull ended and deliver "
                 "exactly the pull's items; sendPush_end_to_end, pipeline_compose (K1 pushing into K2) and pipeline_compose2 (a two-port "
                 "combinator feeding two sub-pipelines) chain these along arbitrary tree-shaped pipelines (worked: map->flat_map->"
-                "persist->fanout under the driver; fanout(map->fold_keyed, map)). For the non-blocking ResolveFutures "
-                "resolveNonblocking_partial proves the readiness clause and conservation (delivered ++ queued = everything). "
+                "persist->fanout under the driver; fanout(map->fold_keyed, map)). The contract (ProtoOk) lets a caller poll "
+                "poll_ready/poll_finalize again after finalize was started or Done, because callers in the crate do (FlatMap::"
+                "poll_finalize polls its downstream's poll_ready, Fanout/Unzip/DemuxVar/StatePush re-poll a finished branch), so "
+                "every Sound theorem covers such callers; it never lets anyone send after finalize was called. Sound is a safety "
+                "statement: it says nothing unless/until the caller gets finalize?true (no progress theorem; completion is only "
+                "observed on every generated run). "
                 "Tie: the same op lines (bounded-exhaustive answer scripts per port x inputs x pull Pending placements + random "
                 "driver cases + bounded-exhaustive and adaptive contract-conforming manual call histories incl. re-polling after Done; "
                 "single combinators and five nested pipelines incl. fanout(fold_keyed) and fanout(resolve_futures)) are run on the real "
                 "combinators under the real SendPush/SendSink and on the compiled model; the global downstream call trace of "
                 "every poll/call and the external state left behind are diffed; the contract and delivered-items oracle is "
-                "evaluated on the real trace against an independent iterator-level spec. Partial: ResolveFutures with a "
-                "subgraph_waker (non-blocking) is modelled and correspondence-checked; its contract clause 'no send after "
-                "finalize' is refuted on a concrete witness when poll_finalize is polled again after Done "
-                "(resolveNonblocking_sendAfterDone_refuted, known finding F124), so it has no Sound theorem and cannot sit under a "
-                "Fanout in pipeline_compose; F121-F123 (FilterMapAsync item loss, StatePush duplicate state, FoldKeyed/ReduceKeyed "
-                "re-flush) were found by the oracle and fixed in /repo."),
+                "evaluated on the real trace against an independent iterator-level spec (for the non-blocking ResolveFutures the "
+                "delivered items are checked as a prefix/sub-multiset plus conservation with the queue left behind; the protocol "
+                "clauses are checked for it like for all others). F121-F124 (FilterMapAsync item loss, StatePush duplicate state, "
+                "FoldKeyed/ReduceKeyed re-flush, non-blocking ResolveFutures sending into a finalizing downstream) were found by "
+                "the oracle and fixed in /repo."),
     level_note=("Trusted/modelled-not-verified: Pin, Context merging, Toggle and size_hint are erased; closures are fixed pure "
                 "functions in the correspondence and arbitrary pure functions in the theorems; HashMap iteration order is an "
                 "arbitrary function `order` (keyed sends compared as multisets); futures, streams and the futures queue are "
